@@ -691,6 +691,78 @@ def _penalty_is_scalar(model, rep):
              eps[0].lineno)
 
 
+def _r5(model, rep):
+    """(a) the vector the solution is expanded into (x, or the vector a
+    helper allocates for it when x is omitted) must be able to hold the
+    solution: allocated with the dtype of the system (dtype=<matrix>.dtype,
+    result_type(...), or *_like an operand) - a default-float vector drops
+    the imaginary part of a complex solution at y[I] = sol.  (b) no helper
+    decides anything by comparing operand values with an absolute
+    tolerance (np.allclose / np.isclose against a constant): whether a
+    prescribed value counts would depend on the units of the data."""
+    R5 = "C05-R5"
+    n_alloc = 0
+    for name in dict.fromkeys(BC_FUNCS + ["_init_bc"]):
+        try:
+            fn = model.func(U, name)
+        except AnalysisError:
+            continue
+        params = set(fn.params())
+        for node in walk_no_nested(fn.node):
+            # (a)
+            if isinstance(node, ast.Assign) and len(node.targets) == 1 \
+                    and isinstance(node.targets[0], ast.Name) and \
+                    node.targets[0].id == "x" and "x" in params and \
+                    isinstance(node.value, ast.Call):
+                f = src(node.value.func)
+                if f in ("np.zeros", "np.ones", "np.empty", "np.full"):
+                    n_alloc += 1
+                    dt = [k.value for k in node.value.keywords
+                          if k.arg == "dtype"]
+                    ok = bool(dt) and any(
+                        isinstance(x_, ast.Attribute) and x_.attr == "dtype"
+                        for x_ in ast.walk(dt[0])) or (
+                        bool(dt) and "result_type" in src(dt[0]))
+                    cons = f"{name}:default-x:dtype"
+                    if ok:
+                        rep.ok(R5, cons, f"omitted x allocated with "
+                               f"{src(dt[0])}")
+                    else:
+                        rep.fail(R5, F, name, cons,
+                                 f"'{src(node)[:60]}' allocates the vector "
+                                 f"the solution is expanded into with "
+                                 f"{'the default float type' if not dt else src(dt[0])}"
+                                 f": for a complex system y[I] = solution "
+                                 f"drops the imaginary part and the expanded "
+                                 f"vector no longer satisfies the kept "
+                                 f"equations", node.lineno)
+                elif f.endswith("_like"):
+                    n_alloc += 1
+                    rep.ok(R5, f"{name}:default-x:dtype",
+                           f"omitted x allocated like an operand")
+            # (b)
+            if isinstance(node, ast.Call) and src(node.func) in (
+                    "np.allclose", "np.isclose", "numpy.allclose",
+                    "numpy.isclose", "math.isclose"):
+                names = {x_.id for a in node.args for x_ in ast.walk(a)
+                         if isinstance(x_, ast.Name)}
+                if names & params:
+                    rep.fail(R5, F, name,
+                             f"{name}:tolerance:{src(node)[:40]}",
+                             f"'{src(node)[:60]}' compares operand values "
+                             f"with an absolute tolerance (default atol "
+                             f"1e-8): prescribed values that are small in "
+                             f"the units of the problem are treated as "
+                             f"zero and the kept equations are no longer "
+                             f"satisfied", node.lineno)
+    if n_alloc < 1:
+        raise AnalysisError("no default allocation of the prescribed-value "
+                            "vector found (_init_bc)")
+    rep.ok(R5, "bc-helpers:no-absolute-tolerance",
+           "no np.allclose / np.isclose on operand values in the boundary "
+           "condition helpers")
+
+
 def _verdict(rep, rule, ok, cons, okmsg, qual, badmsg, line):
     if ok:
         rep.ok(rule, cons, okmsg)
@@ -867,7 +939,11 @@ def run(model: Model, rep, tier: str) -> None:
     rep.rule("C05-R4", "every 'a[idx] op= v' uses a provably repeat-free "
              "idx (lost-update hazard)")
     an = Analyzer(model)
-    staged(lambda: _r1(model, an, rep), lambda: _r2(model, rep),
+    rep.rule("C05-R5", "the expansion vector can hold the solution "
+             "(dtype of the system); no absolute tolerance on operand "
+             "values")
+    staged(lambda: _r5(model, rep),
+           lambda: _r1(model, an, rep), lambda: _r2(model, rep),
            lambda: _r3(model, rep), lambda: _r4(model, rep))
     rep.require_min("C05-R1", 30)
     rep.require_min("C05-R2", 7)
@@ -876,6 +952,13 @@ def run(model: Model, rep, tier: str) -> None:
 
 _U = "skfem/utils.py"
 MUTANTS = [
+    ("omitted prescribed values default to a float vector",
+     ("skfem/utils.py", "        x = np.zeros(A.shape[0], dtype=A.dtype)",
+      "        x = np.zeros(A.shape[0])"), "C05-R5"),
+    ("condense skips the coupling term for 'zero' data",
+     ("skfem/utils.py", "            bout = b[I] - A[I][:, D] @ x[D]\n",
+      "            bout = b[I]\n            if not np.allclose(x[D], 0.):\n"
+      "                bout = bout - A[I][:, D] @ x[D]\n"), "C05-R5"),
     ("penalize: default penalty computed per row",
      ("skfem/utils.py", "np.linalg.norm(d[D], np.inf).astype(float)",
       "np.abs(d[D]).astype(float)"), "C05-R3"),
